@@ -291,6 +291,33 @@ static void mixed_precision(vr::rng &g, int which) {
     } catch (const std::exception &e) { o.str("exc", e.what()); }
     put(o);
 }
+
+// the same set-up asked to solve on the preconditioner's own float matrix, solve(rhs, x): (i) a second solve on the same
+// object warm-started from the previous solution, (ii) restarted GMRES (r = f - A x is recomputed at every restart).
+// The matrix values are integers (exact in float), so the matrix the solver uses IS the double one: the true residual
+// is recomputed against it in long double and must agree with the reported one at tol 1e-10.
+template <class P> auto set_restart(P &p, int m) -> decltype(p.M = m, void()) { p.M = m; }      // gmres: restart length
+inline void set_restart(...) {}
+template <template <class> class IterSolver>
+static void mixed_residual(vr::rng &g, int which, const char *how, bool warm) {
+    std::shared_ptr<M> A; std::string name;
+    if (which % 3 == 0) { A = vr::poisson2d(30, 30); name = "poisson2d 30x30"; }
+    else if (which % 3 == 1) { A = vr::poisson2d(g.range(15, 45), g.range(15, 45), g.range(1, 3), g.range(1, 3)); name = "poisson2d random size/anisotropy"; }
+    else { A = vr::random_mmatrix(g, 400, 0.008, 3, 1); name = "random M-matrix 400"; }
+    arrays a = to_arrays(*A); size_t n = a.n; std::vector<double> f(n), x(n, 0.0); for (size_t i = 0; i < n; ++i) f[i] = g.range(-50, 50) + 0.5;
+    typedef backend::builtin<float> FB;
+    typedef make_solver< amg<FB, coarsening::smoothed_aggregation, relaxation::spai0>, IterSolver<SB> > Solver;
+    vr::obj o; o.str("k", "mixed").str("sys", name + ", solve(rhs, x) on the float matrix, " + how).i("n", n).i("tol_md", -10000);
+    try {
+        typename Solver::params prm; prm.solver.tol = 1e-10; prm.solver.maxiter = 300; prm.precond.coarse_enough = 100; set_restart(prm.solver, 4);
+        Solver S(std::tie(a.n, a.ptr, a.col, a.val), prm);
+        size_t it; double err; std::tie(it, err) = S(f, x);
+        if (warm) { for (size_t i = 0; i < n; ++i) f[i] += (double)((i * 7) % 5) - 2; std::tie(it, err) = S(f, x); }   // new rhs, previous solution as initial guess
+        long double rn = 0, fn = 0; for (size_t i = 0; i < n; ++i) { long double s = f[i]; for (ptrdiff_t p = a.ptr[i]; p < a.ptr[i+1]; ++p) s -= (long double)a.val[p] * x[a.col[p]]; rn += s * s; fn += (long double)f[i] * f[i]; }
+        o.i("iters", it).i("maxiter", prm.solver.maxiter).i("reported_md", md(err)).i("true_md", md(std::sqrt(rn / fn)));
+    } catch (const std::exception &e) { o.str("exc", e.what()); }
+    put(o);
+}
 #endif
 
 #if PART >= 2
@@ -352,6 +379,12 @@ template <int B> struct forms {
             prm.precond.coarsening.aggr.block_size = B;
             S s(adapter::block_matrix<Blk>(T), prm);
             auto F = backend::reinterpret_as_rhs<Blk>(f); auto X = backend::reinterpret_as_rhs<Blk>(x); std::tie(it, err) = s(F, X); });
+        guarded("block double solver / block float preconditioner from a double-block adapter (tutorial/2.Serena)", [&](std::vector<double> &x, size_t &it, double &err) {
+            typedef static_matrix<float, B, B> FBlk; typedef backend::builtin<FBlk> FBB;
+            typedef make_solver< amg<FBB, coarsening::smoothed_aggregation, relaxation::spai0>, solver::cg<BB> > S; typename S::params prm; common(prm);
+            auto Ab = adapter::block_matrix<Blk>(T);
+            S s(Ab, prm);                                  // every double block is converted to a float block here
+            auto F = backend::reinterpret_as_rhs<Blk>(f); auto X = backend::reinterpret_as_rhs<Blk>(x); std::tie(it, err) = s(Ab, F, X); });
         // ---- call history on one object: built for A0 (the system with a heavier diagonal), later asked to solve the
         //      caller's matrix A1 = K with operator()(A1, rhs, x): solution and residual must be those of A1
         guarded("make_block_solver built for A0, then operator()(A1 = K, rhs, x)", [&](std::vector<double> &x, size_t &it, double &err) {
@@ -438,6 +471,8 @@ int main(int argc, char **argv) {
         for (int r = 0; r < (th ? 6 : 2); ++r) { cblock_forms<solver::cg>(g, false, "cg"); cblock_forms<solver::gmres>(g, false, "gmres");
                                                  cblock_forms<solver::bicgstab>(g, true, "bicgstab"); cblock_forms<solver::gmres>(g, true, "gmres"); }
         for (int w = 0; w < (th ? 12 : 5); ++w) mixed_precision(g, w);
+        for (int w = 0; w < (th ? 9 : 3); ++w) { mixed_residual<solver::cg>(g, w, "cg warm start", true); mixed_residual<solver::gmres>(g, w, "gmres cold start", false);
+                                                 mixed_residual<solver::bicgstab>(g, w, "bicgstab warm start", true); }
     }
 #elif PART == 2
     block_forms<2>(g, vr::env_int("VERIF_REPS", th ? 12 : 3));
